@@ -11,24 +11,347 @@ def Coherent (s : St) : Prop :=
   (∀ p, s.poly = some p → PolyOk p) ∧ (∀ p, s.poly2 = some p → Poly2Ok p) ∧
   (s.validated = true → s.xUnique = true) ∧ (s.size = none → s.poly = none ∧ s.poly2 = none ∧ s.spline = none)
 
+/-! ### the 1-D polynomial cache -/
+
+theorem recalc_ok (sp : Option Poly) (k : Nat) (h : ∀ p, sp = some p → PolyOk p) :
+    PolyOk (recalc sp k) ∧ (recalc sp k).order = k := by
+  cases sp with
+  | none => exact ⟨⟨rfl, fun hc => by cases hc⟩, rfl⟩
+  | some p =>
+    obtain ⟨h1, h2⟩ := h p rfl
+    unfold recalc; dsimp only
+    by_cases hgt : k > p.order
+    · rw [if_pos hgt]
+      exact ⟨⟨rfl, fun hc => by cases hc⟩, rfl⟩
+    · rw [if_neg hgt]
+      by_cases hlt : k < p.order
+      · rw [if_pos hlt]
+        refine ⟨⟨?_, fun hc => by cases hc⟩, rfl⟩
+        show min p.cols (k + 1) = k + 1
+        omega
+      · rw [if_neg hlt]
+        have : k = p.order := by omega
+        subst this
+        exact ⟨⟨h1, h2⟩, rfl⟩
+
+theorem getPinv_ok (p : Poly) (h : PolyOk p) :
+    PolyOk (getPinv p).1 ∧ (getPinv p).1.cols = p.cols ∧ (getPinv p).2 = p.cols := by
+  obtain ⟨h1, h2⟩ := h
+  unfold getPinv
+  by_cases hc : (p.stale || p.pinvCols.isNone) = true
+  · rw [if_pos hc]
+    exact ⟨⟨h1, fun _ => rfl⟩, rfl, rfl⟩
+  · rw [if_neg hc]
+    have hs : p.stale = false := by
+      cases hst : p.stale <;> simp [hst] at hc ⊢
+    have := h2 hs
+    refine ⟨⟨h1, h2⟩, rfl, ?_⟩
+    show p.pinvCols.getD 0 = p.cols
+    rw [this]; rfl
+
+/-! ### the 2-D polynomial cache -/
+
+theorem recalc2_ok (sp : Option Poly2) (o : Nat × Nat) (mc : Option Nat) (h : ∀ p, sp = some p → Poly2Ok p) :
+    Poly2Ok (recalc2 sp o mc) ∧ (recalc2 sp o mc).vKey = (o, mc) := by
+  cases sp with
+  | none => exact ⟨⟨rfl, fun hc => by cases hc⟩, rfl⟩
+  | some p =>
+    obtain ⟨h1, h2⟩ := h p rfl
+    unfold recalc2; dsimp only
+    by_cases hc : (p.maxCross != mc || p.orders != o) = true
+    · rw [if_pos hc]
+      exact ⟨⟨rfl, fun hc => by cases hc⟩, rfl⟩
+    · rw [if_neg hc]
+      have hm : p.maxCross = mc := by
+        by_cases hm : p.maxCross = mc
+        · exact hm
+        · exfalso; apply hc; simp [hm]
+      have ho : p.orders = o := by
+        by_cases ho : p.orders = o
+        · exact ho
+        · exfalso; apply hc; simp [ho]
+      subst hm; subst ho
+      exact ⟨⟨h1, h2⟩, h1⟩
+
+theorem getPinv2_ok (p : Poly2) (h : Poly2Ok p) :
+    Poly2Ok (getPinv2 p).1 ∧ (getPinv2 p).1.vKey = p.vKey ∧ (getPinv2 p).2 = p.vKey := by
+  obtain ⟨h1, h2⟩ := h
+  unfold getPinv2
+  by_cases hc : (p.stale || p.pinvKey.isNone) = true
+  · rw [if_pos hc]
+    exact ⟨⟨h1, fun _ => rfl⟩, rfl, rfl⟩
+  · rw [if_neg hc]
+    have hs : p.stale = false := by
+      cases hst : p.stale <;> simp [hst] at hc ⊢
+    have := h2 hs
+    refine ⟨⟨h1, h2⟩, rfl, ?_⟩
+    show p.pinvKey.getD ((0, 0), none) = p.vKey
+    rw [this]; rfl
+
+/-! ### the method body -/
+
+/-- the outcome of a body on an object whose caches are coherent (in particular: a fresh one) -/
+def bodySpec : Kind → Outcome
+  | .plain => .ok .none
+  | .failsInside => .failed
+  | .polyNoVander => .ok .none
+  | .poly k weighted pinv =>
+    .ok (.poly (k + 1) (if !pinv then none else if weighted then none else some (k + 1)))
+  | .poly2 a b mc weighted pinv =>
+    .ok (.poly2 ((a, b), mc) (if !pinv then none else if weighted then none else some ((a, b), mc)))
+  | .spline kn dg failAfter => if failAfter then .failed else .ok (.spline (kn, dg))
+
+theorem body_outcome (s : St) (k : Kind) (h1 : ∀ p, s.poly = some p → PolyOk p)
+    (h2 : ∀ p, s.poly2 = some p → Poly2Ok p) : (body s k).2 = bodySpec k := by
+  cases k with
+  | plain => rfl
+  | failsInside => rfl
+  | polyNoVander => rfl
+  | poly k w pv =>
+    obtain ⟨hr, hord⟩ := recalc_ok s.poly k h1
+    obtain ⟨_, hg1, hg2⟩ := getPinv_ok _ hr
+    have hcols : (recalc s.poly k).cols = k + 1 := by rw [hr.1, hord]
+    cases pv <;> cases w <;> simp [body, bodySpec, hcols, hg1, hg2]
+  | poly2 a b mc w pv =>
+    obtain ⟨hr, hkey⟩ := recalc2_ok s.poly2 (a, b) mc h2
+    obtain ⟨_, hg1, hg2⟩ := getPinv2_ok _ hr
+    cases pv <;> cases w <;> simp [body, bodySpec, hkey, hg1, hg2]
+  | spline kn dg fa =>
+    unfold body bodySpec
+    cases hs : s.spline with
+    | none => rfl
+    | some key =>
+      by_cases hk : key = (kn, dg)
+      · subst hk; simp
+      · simp [hk]
+
+theorem body_coherent (s : St) (k : Kind) (h : Coherent s) (hs : s.size ≠ none) :
+    Coherent (body s k).1 := by
+  obtain ⟨h1, h2, h3, h4⟩ := h
+  cases k with
+  | plain => exact ⟨h1, h2, h3, h4⟩
+  | failsInside => exact ⟨h1, h2, h3, h4⟩
+  | polyNoVander => exact ⟨h1, h2, h3, h4⟩
+  | poly k w pv =>
+    obtain ⟨hr, _⟩ := recalc_ok s.poly k h1
+    obtain ⟨hg, _, _⟩ := getPinv_ok _ hr
+    cases pv <;> cases w <;>
+      (refine ⟨?_, ?_, ?_, ?_⟩
+       · intro p hp
+         simp [body] at hp
+         subst hp
+         first | exact hr | exact hg
+       · exact h2
+       · exact h3
+       · intro hn; exact absurd hn hs)
+  | poly2 a b mc w pv =>
+    obtain ⟨hr, _⟩ := recalc2_ok s.poly2 (a, b) mc h2
+    obtain ⟨hg, _, _⟩ := getPinv2_ok _ hr
+    cases pv <;> cases w <;>
+      (refine ⟨?_, ?_, ?_, ?_⟩
+       · exact h1
+       · intro p hp
+         simp [body] at hp
+         subst hp
+         first | exact hr | exact hg
+       · exact h3
+       · intro hn; exact absurd hn hs)
+  | spline kn dg fa =>
+    exact ⟨h1, h2, h3, fun hn => absurd hn hs⟩
+
+theorem body_size (s : St) (k : Kind) :
+    (body s k).1.size = s.size ∧ (body s k).1.xUnique = s.xUnique := by
+  cases k with
+  | plain => exact ⟨rfl, rfl⟩
+  | failsInside => exact ⟨rfl, rfl⟩
+  | polyNoVander => exact ⟨rfl, rfl⟩
+  | poly k w pv => cases pv <;> cases w <;> exact ⟨rfl, rfl⟩
+  | poly2 a b mc w pv => cases pv <;> cases w <;> exact ⟨rfl, rfl⟩
+  | spline kn dg fa => exact ⟨rfl, rfl⟩
+
+/-! ### the theorems -/
+
 theorem coherent_init (twoD : Bool) (given : Option (Nat × Bool)) (h : ∀ n, given = some (n, false) → True) :
-    Coherent (init twoD given) := by sorry
+    Coherent (init twoD given) := by
+  refine ⟨?_, ?_, ?_, ?_⟩
+  · intro p hp; simp [init] at hp
+  · intro p hp; simp [init] at hp
+  · cases given with
+    | none => intro _; rfl
+    | some g => intro hv; simp [init] at hv
+  · intro _; exact ⟨rfl, rfl, rfl⟩
 
-theorem coherent_step (s : St) (o : Op) (h : Coherent s) : Coherent (step s o).1 := by sorry
+/-- the state after `inner`'s x-validation -/
+def mid (s : St) (c : Call) : St :=
+  if c.uniqueX && !s.validated then { s with validated := true } else s
 
-theorem coherent_run (s : St) (ops : List Op) (h : Coherent s) : Coherent (run s ops) := by sorry
+theorem callStep_none (s : St) (c : Call) (hsz : s.size = none) :
+    callStep s c = body { s with size := some c.len, xUnique := true } c.kind := by
+  unfold callStep
+  split
+  · rfl
+  · next m hm => rw [hsz] at hm; cases hm
+
+theorem callStep_some (s : St) (c : Call) (n : Nat) (hsz : s.size = some n) :
+    callStep s c =
+      if c.uniqueX && !s.validated && !s.xUnique then (s, .nonUniqueX)
+      else if c.len != n then (mid s c, .lenMismatch) else body (mid s c) c.kind := by
+  unfold callStep
+  split
+  · next hm => rw [hsz] at hm; cases hm
+  · next m hm => rw [hsz] at hm; cases hm; rfl
+
+theorem mid_fields (s : St) (c : Call) :
+    (mid s c).size = s.size ∧ (mid s c).xUnique = s.xUnique ∧ (mid s c).poly = s.poly ∧
+    (mid s c).poly2 = s.poly2 ∧ (mid s c).spline = s.spline := by
+  unfold mid; split <;> exact ⟨rfl, rfl, rfl, rfl, rfl⟩
+
+theorem mid_coherent (s : St) (c : Call) (h : Coherent s)
+    (hA : ¬ (c.uniqueX && !s.validated && !s.xUnique) = true) : Coherent (mid s c) := by
+  obtain ⟨h1, h2, h3, h4⟩ := h
+  unfold mid
+  by_cases hB : (c.uniqueX && !s.validated) = true
+  · rw [if_pos hB]
+    refine ⟨h1, h2, ?_, h4⟩
+    intro _
+    cases hx : s.xUnique with
+    | true => rfl
+    | false => exfalso; apply hA; simp [hB, hx]
+  · rw [if_neg hB]
+    exact ⟨h1, h2, h3, h4⟩
+
+theorem callStep_coherent (s : St) (c : Call) (h : Coherent s) : Coherent (callStep s c).1 := by
+  cases hsz : s.size with
+  | none =>
+    obtain ⟨h1, h2, h3, h4⟩ := h
+    rw [callStep_none s c hsz]
+    apply body_coherent
+    · exact ⟨h1, h2, fun _ => rfl, fun hn => by cases hn⟩
+    · intro hn; cases hn
+  | some n =>
+    rw [callStep_some s c n hsz]
+    by_cases hA : (c.uniqueX && !s.validated && !s.xUnique) = true
+    · rw [if_pos hA]; exact h
+    · rw [if_neg hA]
+      have hm := mid_coherent s c h hA
+      by_cases hL : (c.len != n) = true
+      · rw [if_pos hL]; exact hm
+      · rw [if_neg hL]
+        apply body_coherent _ _ hm
+        rw [(mid_fields s c).1, hsz]; intro hn; cases hn
+
+theorem coherent_step (s : St) (o : Op) (h : Coherent s) : Coherent (step s o).1 := by
+  cases o with
+  | call c => exact callStep_coherent s c h
+  | setSolver v isBool =>
+    dsimp only [step]
+    split
+    · exact h
+    · exact h
+
+theorem coherent_run (s : St) (ops : List Op) (h : Coherent s) : Coherent (run s ops) := by
+  unfold run
+  induction ops generalizing s with
+  | nil => exact h
+  | cons o ops ih => exact ih _ (coherent_step s o h)
 
 /-- one-step refinement: from a coherent state every call has the fresh object's outcome -/
-theorem callStep_refines (s : St) (c : Call) (h : Coherent s) : (callStep s c).2 = freshOutcome s c := by sorry
+theorem callStep_refines (s : St) (c : Call) (h : Coherent s) : (callStep s c).2 = freshOutcome s c := by
+  obtain ⟨h1, h2, h3, h4⟩ := h
+  have hf1 : ∀ (t : St), t.poly = none → ∀ p, t.poly = some p → PolyOk p := by
+    intro t ht p hp; rw [ht] at hp; cases hp
+  have hf2 : ∀ (t : St), t.poly2 = none → ∀ p, t.poly2 = some p → Poly2Ok p := by
+    intro t ht p hp; rw [ht] at hp; cases hp
+  unfold freshOutcome
+  cases hsz : s.size with
+  | none =>
+    have hx : xOf s = none := by unfold xOf; rw [hsz]; rfl
+    rw [hx, callStep_none s c hsz, callStep_none _ c rfl]
+    rw [body_outcome, body_outcome]
+    · exact hf1 _ rfl
+    · exact hf2 _ rfl
+    · exact h1
+    · exact h2
+  | some n =>
+    have hx : xOf s = some (n, s.xUnique) := by unfold xOf; rw [hsz]; rfl
+    rw [hx, callStep_some s c n hsz, callStep_some (init s.twoD (some (n, s.xUnique))) c n rfl]
+    generalize hF : init s.twoD (some (n, s.xUnique)) = F
+    have hFv : F.validated = false := by rw [← hF]; rfl
+    have hFx : F.xUnique = s.xUnique := by rw [← hF]; rfl
+    have hFp : F.poly = none := by rw [← hF]; rfl
+    have hFp2 : F.poly2 = none := by rw [← hF]; rfl
+    by_cases hA : (c.uniqueX && !s.validated && !s.xUnique) = true
+    · have hA' : (c.uniqueX && !F.validated && !F.xUnique) = true := by
+        rw [hFv, hFx]
+        cases hu : c.uniqueX <;> cases hx : s.xUnique <;> simp [hu, hx] at hA ⊢
+      rw [if_pos hA, if_pos hA']
+    · have hA' : ¬ (c.uniqueX && !F.validated && !F.xUnique) = true := by
+        rw [hFv, hFx]
+        cases hu : c.uniqueX <;> cases hx : s.xUnique <;> cases hv : s.validated <;>
+          simp [hu, hx, hv] at hA h3 ⊢
+      rw [if_neg hA, if_neg hA']
+      by_cases hL : (c.len != n) = true
+      · rw [if_pos hL, if_pos hL]
+      · rw [if_neg hL, if_neg hL]
+        obtain ⟨_, _, m1, m2, _⟩ := mid_fields s c
+        obtain ⟨_, _, f1, f2, _⟩ := mid_fields F c
+        rw [body_outcome, body_outcome]
+        · rw [f1]; exact hf1 F hFp
+        · rw [f2]; exact hf2 F hFp2
+        · rw [m1]; exact h1
+        · rw [m2]; exact h2
+
+theorem callStep_xOf (s : St) (c : Call) (n : Nat) (u : Bool) (h : xOf s = some (n, u)) :
+    xOf (callStep s c).1 = some (n, u) := by
+  cases hsz : s.size with
+  | none => unfold xOf at h; rw [hsz] at h; cases h
+  | some m =>
+    rw [callStep_some s c m hsz]
+    have hmid : xOf (mid s c) = xOf s := by
+      unfold xOf; rw [(mid_fields s c).1, (mid_fields s c).2.1]
+    by_cases hA : (c.uniqueX && !s.validated && !s.xUnique) = true
+    · rw [if_pos hA]; exact h
+    · rw [if_neg hA]
+      by_cases hL : (c.len != m) = true
+      · rw [if_pos hL]; show xOf (mid s c) = _; rw [hmid]; exact h
+      · rw [if_neg hL]
+        obtain ⟨e1, e2⟩ := body_size (mid s c) c.kind
+        rw [← h, ← hmid]
+        unfold xOf
+        rw [e1, e2]
 
 /-- x (size, uniqueness) is never changed once set -/
-theorem xOf_step (s : St) (o : Op) (n : Nat) (u : Bool) (h : xOf s = some (n, u)) : xOf (step s o).1 = some (n, u) := by sorry
+theorem xOf_step (s : St) (o : Op) (n : Nat) (u : Bool) (h : xOf s = some (n, u)) : xOf (step s o).1 = some (n, u) := by
+  cases o with
+  | call c => exact callStep_xOf s c n u h
+  | setSolver v isBool =>
+    dsimp only [step]
+    split
+    · exact h
+    · exact h
 
 /-- powers 1, x, …, x^k: one row of `polyvander`; and the column-prefix law -/
 def vanderRow (x : Rat) : Nat → List Rat
   | 0 => [1]
   | k+1 => vanderRow x k ++ [x ^ (k+1)]
-theorem vanderRow_length (x : Rat) (k : Nat) : (vanderRow x k).length = k + 1 := by sorry
-theorem vanderRow_prefix (x : Rat) (k K : Nat) (h : k ≤ K) : (vanderRow x K).take (k + 1) = vanderRow x k := by sorry
+theorem vanderRow_length (x : Rat) (k : Nat) : (vanderRow x k).length = k + 1 := by
+  induction k with
+  | zero => rfl
+  | succ k ih => simp [vanderRow, ih]
+theorem vanderRow_prefix (x : Rat) (k K : Nat) (h : k ≤ K) : (vanderRow x K).take (k + 1) = vanderRow x k := by
+  induction K with
+  | zero =>
+    have : k = 0 := by omega
+    subst this; rfl
+  | succ K ih =>
+    by_cases hk : k = K + 1
+    · subst hk
+      have := vanderRow_length x (K + 1)
+      exact List.take_of_length_le (by omega)
+    · have hle : k ≤ K := by omega
+      have hlen := vanderRow_length x K
+      show (vanderRow x K ++ [x ^ (K + 1)]).take (k + 1) = vanderRow x k
+      rw [List.take_append_of_le_length (by omega)]
+      exact ih hle
 
 end PbVerif.Lemmas
